@@ -172,6 +172,6 @@ def subchecks():
             run_case=run_forest_spec,
             strategy=lambda tier: gen.scenario(tier, dbs=["Forest"]),
             examples={"quick": 1200, "thorough": 20000},
-            case_timeout=120.0,
+            case_timeout=20.0,
         ),
     ]
